@@ -405,7 +405,11 @@ class WebSocket:
         if opcode == ABNF.OPCODE_TEXT:
             data_received: Union[bytes, str] = data
             if isinstance(data_received, bytes):
-                return data_received.decode("utf-8")
+                try:
+                    return data_received.decode("utf-8")
+                except UnicodeDecodeError:
+                    # only possible with skip_utf8_validation: hand the payload over unchanged
+                    return data_received
             elif isinstance(data_received, str):
                 return data_received
         elif opcode == ABNF.OPCODE_BINARY:
